@@ -78,6 +78,7 @@ type c14sEnv struct {
 	protAt        map[string]int64
 	unprot        map[string]bool
 	fresh         map[string]bool // peers connected during the race (inside grace)
+	gone          map[string]bool // connections whose Disconnected was delivered by the scenario
 	lowAllTheTime bool
 	allowed       map[string][]int // peers whose tag operations do not commute: the totals some order produces
 }
@@ -114,7 +115,7 @@ func c14sBody(sc c14sScn) func(x *vs.Exec) {
 		if err != nil {
 			panic(err)
 		}
-		e := &c14sEnv{x: x, cm: cm, allowed: map[string][]int{}, conns: map[string]*c14sConn{}, tags: map[string]map[string]int{}, protAt: map[string]int64{}, unprot: map[string]bool{}, fresh: map[string]bool{}}
+		e := &c14sEnv{x: x, cm: cm, allowed: map[string][]int{}, conns: map[string]*c14sConn{}, tags: map[string]map[string]int{}, protAt: map[string]int64{}, unprot: map[string]bool{}, fresh: map[string]bool{}, gone: map[string]bool{}}
 		s.Go("setup", func() {
 			for _, p := range sc.Peers {
 				e.connect(p+"1", p)
@@ -180,6 +181,16 @@ func c14sOracle(x *vs.Exec, sc c14sScn, e *c14sEnv) {
 		}
 		if ti.Value != want {
 			x.Fail("tag-total-wrong", "peer %s: tag total %d, tag operations imply %d (tags %v vs %v)", p, ti.Value, want, ti.Tags, tags)
+			return
+		}
+	}
+	// a peer with a connection whose Connected was delivered and whose Disconnected was not is known to the manager
+	for name, c := range e.conns {
+		if e.gone[name] {
+			continue
+		}
+		if e.cm.GetTagInfo(c.p) == nil {
+			x.Fail("connected-peer-unknown", "connection %s was announced (Connected) and never Disconnected, but the manager has no record of its peer (GetTagInfo is nil; a later Disconnected will be ignored and the connection count stay too high)", name)
 			return
 		}
 	}
@@ -273,10 +284,12 @@ func c14sScenarios(thorough bool) []c14sScn {
 						e.fresh["A"] = false
 						e.cm.Notifee().Disconnected(nil, c)
 						e.nConn--
+						vs.Locked(func() { e.gone["A1"] = true })
 						e.cm.Notifee().Disconnected(nil, c) // duplicate: must not count twice
 						c2 := e.conns["C1"]
 						e.cm.Notifee().Disconnected(nil, c2) // last connection of C: its record goes
 						e.nConn--
+						vs.Locked(func() { e.gone["C1"] = true })
 						e.cm.Notifee().Disconnected(nil, c2) // duplicate for a peer that is no longer tracked
 					},
 					func() {
@@ -291,7 +304,7 @@ func c14sScenarios(thorough bool) []c14sScn {
 					func() { e.trim() },
 					func() {
 						e.cm.Notifee().Disconnected(nil, e.conns["C1"]) // last connection of C: its record goes, its tags with it
-						vs.Locked(func() { e.nConn--; delete(e.tags, "C"); e.fresh["C2"] = true })
+						vs.Locked(func() { e.nConn--; delete(e.tags, "C"); e.fresh["C2"] = true; e.gone["C1"] = true })
 						e.connect("C2", "C") // a new record, inside its grace period
 						e.tag("C", "again", 7)
 					},
@@ -307,6 +320,20 @@ func c14sScenarios(thorough bool) []c14sScn {
 					func() {
 						vs.Locked(func() { e.fresh["D1"] = true })
 						e.connect("D1", "D") // the record stops being temporary: its grace period starts now
+					},
+				}
+			}},
+		{Name: "the periodic trim overlaps an explicit trim while an early-tagged peer (temporary record past the grace period) connects", Low: 1, Hi: 2, Peers: []string{"A", "B", "C"}, Tags: map[string]int{"A": 10, "B": 5, "C": 3, "D": 1},
+			Race: func(e *c14sEnv) []func() {
+				delete(e.tags, "D")          // its early tag may be pruned with the temporary record before it connects ...
+				e.allowed["D"] = []int{7, 8} // ... or survive: both totals are what some order of the operations implies
+				return []func(){
+					func() { e.trim() },
+					func() { e.cm.trim() }, // what the background ticker runs (it does not take the trim mutex)
+					func() {
+						vs.Locked(func() { e.fresh["D1"] = true })
+						e.connect("D1", "D")
+						e.cm.TagPeer(c14sPeer("D"), "again", 7)
 					},
 				}
 			}},
